@@ -10,7 +10,7 @@ from pyvc.values import BOOL, INT, REAL, Ref, SStr, fresh, to_real, unwrap
 from . import tis_wf
 from .common import (
     ENGBASE_PY, PATH_PY, TIS_PY, RGen, S, fld, forall_range, mk_path, mk_system, op, ppat, pplen, sys_fields,
-    unchanged, unchanged_below, unchanged_except,
+    unchanged, unchanged_below, unchanged_except, wf_path,
 )
 from .engine import EngineObj
 from .path import PATH_SCALARS
@@ -159,6 +159,14 @@ def _shoot_post(ctx):
     accv = B(acc)
     for nm, t in valid_in_ensemble(ctx.st, trial, L, M, R, sc, maxlength):
         out.append(("ACC_path_" + nm, z3.Implies(accv, t)))
+    out.append(("trial_respects_its_own_maxlen", pplen(ctx.st, trial) <= fld(ctx.st, "Path.maxlen", trial.term)))
+    out.append(("trial_maxlen_is_the_configured_maxlength", fld(ctx.st, "Path.maxlen", trial.term) == maxlength))
+    out.append(("ACC_path_has_an_interior_point", z3.Implies(accv, pplen(ctx.st, trial) >= 3)))
+    out.append(("trial_is_never_empty", pplen(ctx.st, trial) >= 1))
+    out.append(("trial_is_well_formed", wf_path(ctx.st, trial)))
+    if ctx.summary:
+        # at a call site only the clauses that do not refer to the callee's internal draws / engine calls are available
+        return out
     rg = e["rgen"]
     # locate the state's own copy of the generator (forks copy it)
     rg = ctx.st.env["ens_set"]["rgen"] if "ens_set" in ctx.st.env else rg
@@ -439,7 +447,8 @@ def _q_post(ctx):
         V1_r1 = _vpot(ctx.old, ppat(ctx.old, p1, 0))
         V0_r1 = _vpot(ctx.st, props[0]["first"])
         V1_r0 = _vpot(ctx.st, props[1]["first"])
-        arg = (V0_r0 - V0_r1) * eng0.beta - (V1_r0 - V1_r1) * eng1.beta
+        from pyvc.interp import RMUL
+        arg = RMUL(V0_r0 - V0_r1, eng0.beta) - RMUL(V1_r0 - V1_r1, eng1.beta)  # products abstracted (options mul_uf): linear obligations
         pacc = z3.If(EXP(arg) < 1, EXP(arg), z3.RealVal(1))
         u = draws[0]
         aa = e0["tis_set"]["accept_all"]
@@ -454,5 +463,293 @@ reg(Contract(
     "quantis_swap_zero", src=(TIS_PY, "quantis_swap_zero"),
     cases=[Case("energy_rule", _q_make(False)), Case("accept_all", _q_make(True))],
     requires=_q_req, ensures=[("quantis", _q_post)],
-    canaries=[("never_accepts", lambda c: z3.Not(B(c.result[0])))],
+    canaries=[("never_accepts", lambda c: z3.Not(B(c.result[0])))], options={"mul_uf": True},
 ))
+
+
+# ------------------------------------------------------------------ wire fencing: extender, subt_acceptance, wire_fencing (C09)
+def _inside_all(st, p, lo, hi, L, R):
+    return forall_range(lo, hi, lambda j: z3.And(L <= op(st, p, j), op(st, p, j) <= R), pattern=lambda j: ppat(st, p, j))
+
+
+def _outside(o, L, R):
+    """Not strictly inside: the classification calls it L (<= left) or R (>= right)."""
+    return z3.Or(o <= L, o >= R)
+
+
+def _ext_make(sc):
+    def make(ex, st):
+        e = mk_ens(st, START_CONDS[sc], None)
+        return {"source_seg": mk_path(st, "seg", 2), "engine": EngineObj(), "ens_set": e, "start_cond": START_CONDS[sc]}
+    return make
+
+
+def _ext_req(c):
+    e = c.a("ens_set")
+    L, M, R = e["interfaces"]
+    p = c.a("source_seg")
+    n = pplen(c.st, p)
+    return [
+        ("interfaces_ordered", z3.And(L <= M, M <= R)), ("maxlength_ge_3", e["tis_set"]["maxlength"] >= 3),
+        ("segment_has_two_frames", n >= 2), ("segment_within_maxlen", n <= fld(c.st, "Path.maxlen", p.term)),
+        ("segment_maxlen_is_the_configured_maxlength", fld(c.st, "Path.maxlen", p.term) == e["tis_set"]["maxlength"]),
+        ("segment_interior_inside", _inside_all(c.st, p, 1, n - 1, L, R)),
+    ]
+
+
+def _contains(ctx, trial, n):
+    """The frames of the source segment (order values, ghost ids) occur contiguously in the result, at offset OFF."""
+    src = ctx.a("source_seg")
+    ns = pplen(ctx.old, src)
+    if ctx.summary:
+        off = fresh("OFF", INT)  # existential: a fresh constant at a call site, kept as ghost state for the caller's proof
+        ctx.st.ghost = dict(ctx.st.ghost, OFF=off)
+    else:
+        calls = _calls(ctx, "propagate")
+        back = [c for c in calls if c["reverse"] is True]
+        off = (back[0]["n"] - 1) if back else z3.IntVal(0)
+    gid = lambda st_, r: z3.Select(st_.heap["System.gid"], r)  # noqa: E731
+    return z3.And(0 <= off, off + ns - 1 <= n,
+                  forall_range(off, off + ns - 1, lambda t: z3.And(op(ctx.st, trial, t) == op(ctx.old, src, t - off),
+                                                                   gid(ctx.st, ppat(ctx.st, trial, t)) == gid(ctx.old, ppat(ctx.old, src, t - off))),
+                               pattern=lambda t: ppat(ctx.st, trial, t)))
+
+
+def _ext_post(ctx):
+    e = ctx.a("ens_set")
+    L, M, R = e["interfaces"]
+    acc, trial, status = ctx.result
+    accv = B(acc)
+    st_t = unwrap(status, "str")
+    n = pplen(ctx.st, trial)
+    return [
+        ("accept_iff_status_ACC", accv == (st_t == S("ACC"))),
+        ("returned_status_is_the_paths_status", st_t == unwrap(ctx.h(trial, "status"), "str")),
+        ("ACC_shorter_than_maxlength", z3.Implies(accv, n < e["tis_set"]["maxlength"])),
+        ("ACC_starts_outside", z3.Implies(accv, _outside(op(ctx.st, trial, 0), L, R))),
+        ("ACC_ends_outside", z3.Implies(accv, _outside(op(ctx.st, trial, n - 1), L, R))),
+        ("ACC_stays_inside_in_between", z3.Implies(accv, _inside_all(ctx.st, trial, 1, n - 1, L, R))),
+        ("ACC_at_least_two_frames", z3.Implies(accv, n >= 2)),
+        ("ACC_contains_the_source_segment_in_order", z3.Implies(accv, _contains(ctx, trial, n))),
+        ("result_is_a_new_path", trial.term >= ctx.old.alloc),
+        ("result_is_well_formed", wf_path(ctx.st, trial)),
+        ("result_respects_its_own_maxlen", z3.Implies(accv, n <= fld(ctx.st, "Path.maxlen", trial.term))),
+        ("old_frames_untouched", unchanged_below(ctx, sys_fields(), ctx.old.alloc)),
+        ("old_paths_untouched", unchanged_below(ctx, ["Path.pp", "Path.pp#len"] + PATH_SCALARS, ctx.old.alloc)),
+    ]
+
+
+reg(Contract(
+    "extender", src=(TIS_PY, "extender"), cases=[Case(sc, _ext_make(sc)) for sc in ("L", "R", "LR")],
+    requires=_ext_req, ensures=[("extender", _ext_post)], canaries=[("never_accepts", lambda c: z3.Not(B(c.result[0])))],
+    modifies=sys_fields() + ["Path.pp", "Path.pp#len"] + PATH_SCALARS, allocates=True, result=("tuple", "bool", ("ref", "Path"), "str"),
+))
+
+
+def _sub_make(sc):
+    def make(ex, st):
+        e = mk_ens(st, START_CONDS[sc], None, mc_move="wf")
+        e["tis_set"]["interface_cap"] = fresh("cap", REAL)
+        return {"trial_path": mk_path(st, "trial", 2), "ens_set": e, "engine": EngineObj(), "start_cond": START_CONDS[sc]}
+    return make
+
+
+def _sub_req(c):
+    e = c.a("ens_set")
+    L, M, R = e["interfaces"]
+    p = c.a("trial_path")
+    cap = e["tis_set"].get("interface_cap", R)
+    return [("interfaces_ordered", z3.And(L <= M, M <= R, L <= cap)), ("nonempty", pplen(c.st, p) >= 2),
+            ("within_maxlen", pplen(c.st, p) <= fld(c.st, "Path.maxlen", p.term))]
+
+
+def _sub_post(ctx):
+    e = ctx.a("ens_set")
+    L, M, R = e["interfaces"]
+    cap = e["tis_set"].get("interface_cap", R)
+    p = ctx.a("trial_path")
+    sc = ctx.a("start_cond")
+    ok, q = ctx.result
+    okv = B(ok)
+    n = pplen(ctx.old, p)
+    start = _cls(op(ctx.st, q, 0), L, cap, "?")
+    same = q.term == p.term
+    nq = pplen(ctx.st, q)
+    rev = z3.And(q.term >= ctx.old.alloc, nq == n,
+                 forall_range(0, nq, lambda j: z3.Or(op(ctx.st, q, j) == op(ctx.old, p, nq - 1 - j), z3.And(ctx.a("engine").order_function.velocity_dependent)), pattern=lambda j: ppat(ctx.st, q, j)))
+    return [
+        ("success_means_start_side_allowed", z3.Implies(okv, z3.Or(*[start == S(s) for s in sc]))),
+        ("status_ACC_iff_success", (unwrap(ctx.h(q, "status"), "str") == S("ACC")) == okv),
+        ("result_is_the_path_or_its_time_reversal", z3.Or(same, rev)),
+        ("frames_of_the_input_path_untouched", z3.And(unchanged_below(ctx, sys_fields(), ctx.old.alloc), unchanged_below(ctx, ["Path.pp", "Path.pp#len"], ctx.old.alloc))),
+        ("result_length_unchanged", pplen(ctx.st, q) == n),
+        ("result_is_well_formed", wf_path(ctx.st, q)),
+    ]
+
+
+reg(Contract(
+    "subt_acceptance", src=(TIS_PY, "subt_acceptance"), cases=[Case(sc, _sub_make(sc)) for sc in ("L", "R", "LR")],
+    requires=_sub_req, ensures=[("subt", _sub_post)], canaries=[("never_succeeds", lambda c: z3.Not(B(c.result[0])))],
+    modifies=sys_fields() + ["Path.pp", "Path.pp#len"] + PATH_SCALARS, allocates=True, result=("tuple", "bool", ("ref", "Path")),
+))
+
+
+def _wfm_make(cap):
+    def make(ex, st):
+        e = mk_ens(st, ("L",), None, mc_move="wf")
+        if cap:
+            e["tis_set"]["interface_cap"] = fresh("cap", REAL)
+        return {"ens_set": e, "trial_path": mk_path(st, "old", 3), "engine": EngineObj(), "start_cond": ("L",)}
+    return make
+
+
+def _wfm_req(c):
+    e = c.a("ens_set")
+    L, M, R = e["interfaces"]
+    cap = e["tis_set"].get("interface_cap", R)
+    p = c.a("trial_path")
+    return [
+        ("interfaces_ordered_cap_inside", z3.And(L <= M, M <= cap, cap <= R)),
+        ("maxlength_ge_3", e["tis_set"]["maxlength"] >= 3),
+        ("old_path_within_maxlen", pplen(c.st, p) <= fld(c.st, "Path.maxlen", p.term)),
+        ("old_path_maxlen_is_the_configured_maxlength", fld(c.st, "Path.maxlen", p.term) == e["tis_set"]["maxlength"]),
+        ("order_parameter_not_velocity_dependent", z3.Not(c.a("engine").order_function.velocity_dependent)),
+    ]
+
+
+def _wfm_post(ctx):
+    e = ctx.a("ens_set")
+    L, M, R = e["interfaces"]
+    p = ctx.a("trial_path")
+    acc, q, status = ctx.result
+    accv = B(acc)
+    st_t = unwrap(status, "str")
+    n = pplen(ctx.st, q)
+    return [
+        ("accept_iff_status_ACC", accv == (st_t == S("ACC"))),
+        ("ACC_starts_on_the_left", z3.Implies(accv, op(ctx.st, q, 0) <= L)),
+        ("ACC_ends_outside", z3.Implies(accv, _outside(op(ctx.st, q, n - 1), L, R))),
+        ("ACC_stays_inside_in_between", z3.Implies(accv, _inside_all(ctx.st, q, 1, n - 1, L, R))),
+        ("ACC_within_length_limit", z3.Implies(accv, n <= e["tis_set"]["maxlength"])),
+        # "max order >= lambda_i" with its witness named: the frame after the first one of the last accepted web segment (ghost OFF:
+        # where extender placed that segment), counted from the other end when subt_acceptance reversed the path
+        ("ACC_reaches_the_ensemble_interface", z3.Implies(accv, _wf_witness(ctx, q, n, M))),
+        ("old_frames_untouched", unchanged_below(ctx, sys_fields(), ctx.old.alloc)),
+        ("old_path_frame_lists_untouched", unchanged_below(ctx, ["Path.pp", "Path.pp#len"], ctx.old.alloc)),
+        ("rejected_returns_a_path_object", z3.BoolVal(isinstance(q, Ref))),
+    ]
+
+
+def _wf_witness(ctx, q, n, M):
+    off = ctx.st.ghost.get("OFF")
+    if off is None:
+        return z3.BoolVal(False)  # an accepted path without an extender call: cannot happen
+    return z3.And(0 <= off + 1, off + 1 < n, z3.Or(op(ctx.st, q, off + 1) >= M, op(ctx.st, q, n - 2 - off) >= M))
+
+
+def _ci_summary():
+    """Path.check_interfaces by its (verified, C15) contract instead of inlining: wire_fencing only logs its result."""
+    from . import path as cpath
+    src = cpath.REG["Path.check_interfaces"]
+    return Contract(
+        src.key, src=src.src, cases=src.cases, ensures=src.ensures, inline=False,
+        result=lambda name, st: (SStr(fresh(name + ".start", INT)), SStr(fresh(name + ".end", INT)), SStr(fresh(name + ".mid", INT)),
+                                 [fresh(name + ".c%d" % k, BOOL) for k in range(3)]),
+    )
+
+
+reg(Contract(
+    "wire_fencing", src=(TIS_PY, "wire_fencing"), overrides={"Path.check_interfaces": _ci_summary()}, cases=[Case("nocap", _wfm_make(False)), Case("cap", _wfm_make(True))],
+    requires=_wfm_req, ensures=[("wire_fencing", _wfm_post)], canaries=[("never_accepts", lambda c: z3.Not(B(c.result[0])))],
+))
+
+
+# ------------------------------------------------------------------ run_md: the old path is replaced only on ACC (C09)
+from pyvc.values import Opaque  # noqa: E402
+
+CVTOK = z3.Function("cv_vector_of", INT, INT)  # opaque identity of the weight vector computed for a trial path
+
+
+def _select_shoot_summary(ex, st, bound, node):
+    """ASSUMED summary of select_shoot (dispatch to the moves proved above): one trial per picked ensemble, accept iff
+    status ACC, trials well formed, nothing that existed before is written."""
+    picked = bound["picked"]
+    old = st.fork()
+    for key in sys_fields() + ["Path.pp", "Path.pp#len"] + PATH_SCALARS:
+        st.heap[key] = fresh("hv." + key, st.heap[key].sort())
+    na = fresh("alloc", INT)
+    st.assume(na >= st.alloc)
+    st.alloc = na
+    ctx_unch = []
+    for key in sys_fields() + ["Path.pp", "Path.pp#len"] + PATH_SCALARS:
+        r = z3.Int("r!q")
+        ctx_unch.append(z3.ForAll([r], z3.Implies(z3.And(0 <= r, r < old.alloc), z3.Select(st.heap[key], r) == z3.Select(old.heap[key], r))))
+    st.assume(*ctx_unch)
+    trials = []
+    for k in picked:
+        t = Ref("Path", fresh("trial", INT))
+        st.assume(wf_path(st, t), pplen(st, t) >= 1, pplen(st, t) <= fld(st, "Path.maxlen", t.term))
+        trials.append(t)
+    acc, status = fresh("acc", BOOL), SStr(fresh("status", INT))
+    st.assume(acc == (status.term == S("ACC")))
+    st.ghost = dict(st.ghost, select_shoot=(trials, status, old))
+    yield st, (acc, trials, status)
+
+
+def _log_mdlogs(ex, st, bound, node):
+    yield st, None  # reads log files and logs: no state of the sampler
+
+
+def _cv_summary(ex, st, bound, node):
+    """calc_cv_vector by its result identity only (its value is C10's subject): pure."""
+    yield st, CVTOK(bound["path"].term)
+
+
+def _rm_make(n):
+    def make(ex, st):
+        picked, olds = {}, {}
+        for k in ((0,) if n == 1 else (-1, 0)):
+            e = mk_ens(st, ("L",), None, f"e{k + 1}")
+            e["tis_set"]["lambda_minus_one"] = False
+            olds[k] = mk_path(st, f"old{k + 1}", 1)
+            picked[k] = {"ens": e, "traj": olds[k], "exe_dir": Opaque("exe_dir")}
+        st.ghost = dict(st.ghost, old_traj=olds)
+        mc = [SStr(fresh(f"mv{i}", INT)) for i in range(3)]
+        return {"md_items": {"picked": picked, "moves": [], "mc_moves": mc, "trial_len": [], "trial_op": [], "generated": [],
+                             "interfaces": [fresh("i0", REAL), fresh("i1", REAL)], "cap": None}}
+    return make
+
+
+def _rm_post(ctx):
+    md = ctx.v("md_items")  # the dictionary as it is in the final state
+    olds = ctx.st.ghost["old_traj"]
+    trials, status, _ = ctx.st.ghost["select_shoot"]
+    acc = status.term == S("ACC")
+    out = [("returns_the_dict_it_was_given", z3.BoolVal(ctx.result is md)),
+           ("records_the_moves_status", (unwrap(md["status"], "str") == status.term) if "status" in md else z3.BoolVal(False)),
+           ("one_record_per_trial", z3.BoolVal(all(len(md[k]) == len(trials) for k in ("moves", "trial_len", "trial_op", "generated"))))]
+    for (k, pens), t in zip(md["picked"].items(), trials):
+        cur, o = pens["traj"], olds[k]
+        out.append((f"ens{k}.path_replaced_iff_ACC", z3.If(acc, cur.term == t.term, cur.term == o.term)))
+        out.append((f"ens{k}.ACC_trial_gets_its_weight_vector", z3.Implies(acc, fld(ctx.st, "Path.weights", t.term) == CVTOK(t.term))))
+        out.append((f"ens{k}.rejected_old_path_keeps_frames_and_weights", z3.Implies(z3.Not(acc), z3.And(
+            fld(ctx.st, "Path.weights", o.term) == fld(ctx.old, "Path.weights", o.term),
+            pplen(ctx.st, o) == pplen(ctx.old, o),
+            z3.Select(ctx.st.heap["Path.pp"], o.term) == z3.Select(ctx.old.heap["Path.pp"], o.term)))))
+    out.append(("pre_existing_frames_untouched", unchanged_below(ctx, sys_fields(), ctx.old.alloc)))
+    return out
+
+
+reg(Contract(
+    "run_md", src=(TIS_PY, "run_md"), cases=[Case("one_ensemble", _rm_make(1)), Case("zero_swap", _rm_make(2))],
+    ensures=[("run_md", _rm_post)],
+    canaries=[("never_replaces", lambda c: z3.And(*[p["traj"].term == c.st.ghost["old_traj"][k].term for k, p in c.v("md_items")["picked"].items()]))],
+    overrides={
+        "select_shoot": Contract("select_shoot", params=["picked", "start_cond"], defaults={"start_cond": ("L",)}, custom=_select_shoot_summary, label="assumed"),
+        "log_mdlogs": Contract("log_mdlogs", params=["inp"], custom=_log_mdlogs, label="assumed"),
+        "calc_cv_vector": Contract("calc_cv_vector", params=["path", "interfaces", "moves", "lambda_minus_one", "cap", "minus"],
+                                   defaults={"lambda_minus_one": False, "cap": None, "minus": False}, custom=_cv_summary),
+    },
+))
+IMPORTS["log_mdlogs"] = FuncRef(TIS_PY, "log_mdlogs")
+IMPORTS["select_shoot"] = FuncRef(TIS_PY, "select_shoot")
